@@ -114,7 +114,7 @@ func observe(sb *sandbox, c *sim.Client, ev map[string]any) error {
 	if err != nil {
 		return err
 	}
-	snap := []map[string]any{{"p": compsJSON(toB(rootPrefix)), "k": "dir", "s": 0, "t": [][]int{}, "c": 0}}
+	snap := []map[string]any{{"p": compsJSON(toB(rootPrefix)), "k": "dir", "s": 0, "t": [][]int{}, "c": 0, "ty": []int{}}}
 	for _, n := range nodes {
 		snap = append(snap, sb.nodeJSON(n, sb.w.Root, rootPrefix))
 	}
